@@ -31,7 +31,9 @@ RULE = ("one run = one seeded history over one blob directory + sqlite file: blo
         "once; invalid names), process deaths (right after the k-th file-write job = before its add_blobs job, "
         "optionally leaving the file torn; right before the row-deletion job = after the files were removed; "
         "after/before the k-th executor job of any operation incl. open()/setup()), clean or killed restarts, "
-        "each optionally followed by an immediate second restart. After every completed setup() R1-R3 are "
+        "each optionally followed by an immediate second restart; a removed file may leave a dangling symlink or a "
+        "directory under its name; in half of the runs clean restarts are in-process and share the DHT data store's "
+        "completed set the way BlobComponent does. After every completed setup() R1-R3 are "
         "checked, R4 after an immediate second restart. Non-trivial = at least one death or behind-the-back "
         "change was followed by a checked restart; distinct = distinct event-trace digest.")
 COMPONENTS = {
